@@ -35,6 +35,9 @@ def run(chk, tier, proof_ok):
                               'accept/reject records against a pre-sweep capture; chain[i] for every i in [-len,len); '
                               'current_*; sampler stacks; ParallelTemperedChain[i]'}
     chk.coverage['evaluations'] = chk.coverage.get('evaluations', 0) + nrec
+    bf, bst = realsearch.blob_number_findings(chk.seed)
+    findings = findings + bf
+    chk.coverage.setdefault('search', {})['blob_numbers'] = bst
     _plumb.report(chk, proof_ok, divs, errs, findings)
 
 
